@@ -171,16 +171,35 @@ func runC15(c *Ctx) {
 		var rec *g.StateRecorder
 		var err error
 		twin, twinLate := r.Chance(1, 2), r.Bool()
+		viaPlain := r.Chance(1, 4)
+		var recCopy g.StateRecorder // a copy of the recorder taken right after it was made (front ends keep one by value)
 		var s2 g.ReportingSimulator
 		var rec2 *g.StateRecorder
 		setup := func() {
-			s, err = g.NewReportingSimulator(bc.config())
+			if viaPlain {
+				// the other constructor: what it returns can carry listeners as well (when it can, they must be served)
+				var plain g.Simulator
+				plain, err = g.NewSimulator(bc.config())
+				if err != nil {
+					return
+				}
+				rs, ok := plain.(g.ReportingSimulator)
+				if !ok {
+					viaPlain = false
+					s, err = g.NewReportingSimulator(bc.config())
+				} else {
+					s = rs
+				}
+			} else {
+				s, err = g.NewReportingSimulator(bc.config())
+			}
 			if err != nil {
 				return
 			}
 			sm.s = s
 			sm.nwar = s.WarriorCount
 			rec = g.NewStateRecorder(s)
+			recCopy = *rec
 			s.AddReporter(sm)
 			s.AddReporter(rec)
 			for _, w := range bc.Warriors {
@@ -277,6 +296,10 @@ func runC15(c *Ctx) {
 			sm.all = sm.all[:0]
 			for a := 0; a < m; a++ {
 				k, o := rec.GetMemState(g.Address(a))
+				if k2, o2 := recCopy.GetMemState(g.Address(a)); k2 != k || o2 != o {
+					viol("recorder-copy-stale", fmt.Sprintf("%s: a by-value copy of the recorder (taken when it was made) shows address %d as (state %d, warrior %d), the recorder itself as (state %d, warrior %d)", when, a, k2, o2, k, o))
+					return false
+				}
 				if k != mine[a].kind || o != mine[a].owner {
 					viol("recorder-vs-stream", fmt.Sprintf("%s: recorder shows address %d as (state %d, warrior %d) but the last report naming it means (state %d, warrior %d)", when, a, k, o, mine[a].kind, mine[a].owner))
 					return false
